@@ -13,7 +13,8 @@ import subprocess
 import sys
 
 ROOT = "/verif"
-BASE = "/tmp/mut3"
+BASE = os.environ.get("MUT_BASE", "/tmp/mut3")
+RND = os.environ.get("MUT_RND", "r3")     # MUT_BASE=/tmp/mut4 MUT_RND=r4 for round 4
 
 
 def sh(cmd, cwd=None, timeout=6000, env=None):
@@ -24,11 +25,12 @@ def sh(cmd, cwd=None, timeout=6000, env=None):
     return r.returncode, r.stdout + r.stderr
 
 
-def sdir(pid, v, rnd="r3"):
+def sdir(pid, v, rnd=None):
+    rnd = rnd or RND
     return f"{ROOT}/seeded/{pid}-{rnd}{v.lower()}"
 
 
-def confirm(pid, v, rnd="r3"):
+def confirm(pid, v, rnd=None):
     src = f"{BASE}/out/{pid}/{v}"
     wt = f"{BASE}/wt/{pid}"
     demos = [f for f in os.listdir(src) if f.startswith("demo") and f.endswith(".rs")]
@@ -86,12 +88,12 @@ def confirm(pid, v, rnd="r3"):
     return ok
 
 
-def record(pid, v, how, caught, tail, rnd="r3"):
+def record(pid, v, how, caught, tail, rnd=None):
     with open(f"{ROOT}/work/round3_results.txt", "a") as f:
-        f.write(json.dumps({"id": pid, "v": v, "how": how, "caught": caught, "tail": tail[-1500:]}) + "\n")
+        f.write(json.dumps({"id": pid, "v": v, "rnd": rnd or RND, "how": how, "caught": caught, "tail": tail[-1500:]}) + "\n")
 
 
-def ptry(pid, v, props, rnd="r3"):
+def ptry(pid, v, props, rnd=None):
     d = sdir(pid, v, rnd)
     rc, o = sh(f"python3 {ROOT}/lib/seed.py ptry {d} {pid}{v}{os.getpid()} {' '.join(props)}", timeout=9000)
     last = o.strip().split("\n")[-1]
@@ -104,7 +106,7 @@ def ptry(pid, v, props, rnd="r3"):
     return res
 
 
-def try_(pid, v, rnd="r3"):
+def try_(pid, v, rnd=None):
     d = sdir(pid, v, rnd)
     rc, o = sh(f"python3 {ROOT}/lib/seed.py try {d} {pid}", timeout=9000)
     last = o.strip().split("\n")[-1]
